@@ -49,6 +49,11 @@ def applicable(model, kinds, req):
             if p in req.get(c["cmd"], ()):
                 sites.append(("missing-param", i, p, None))
         sites.append(("undeclared-param", i, "Bogus_Param", None))
+        # a name that *other* commands declare (a sibling's or a subclass's parameter), but not this one
+        foreign = sorted(set(p for cmd_, d_ in kinds.items() for p in d_ if p not in ks and cmd_ != c["cmd"]
+                             and (cmd_.startswith(c["cmd"]) or c["cmd"].startswith(cmd_) or cmd_[:6] == c["cmd"][:6])))
+        for p in foreign[:3]:
+            sites.append(("undeclared-param", i, p, "declared-by-a-related-command"))
         unused = [p for p in ks if p not in c["args"]]
         for p in unused[:2]:
             # an undeclared name that differs from a declared (optional, unused) one only in letter case
